@@ -54,7 +54,9 @@ type Check struct {
 	// MinNontrivial: fewer distinct non-trivial cases make the run inconclusive.
 	MinNontrivial int64
 	Shards        int // 0: number of CPUs
-	Exhaustive    func(tier string) bool
+	// WorkerProcs: GOMAXPROCS of each worker process (default 1).
+	WorkerProcs int
+	Exhaustive  func(tier string) bool
 }
 
 // Violation is a refuted property instance.
@@ -548,7 +550,11 @@ func RunCheck(id, tier string) int {
 				cmd := exec.Command(self, "worker", id, "--tier", tier, "--shard", strconv.Itoa(s), "--nshard", strconv.Itoa(nshard), "--out", out)
 				cmd.Stdout = lf
 				cmd.Stderr = lf
-				cmd.Env = append(os.Environ(), "GOMAXPROCS=1")
+				procs := 1
+				if ch.WorkerProcs > 0 {
+					procs = ch.WorkerProcs
+				}
+				cmd.Env = append(os.Environ(), "GOMAXPROCS="+strconv.Itoa(procs))
 				err := cmd.Run()
 				lf.Close()
 				results[s] = wres{s, err, out, logp}
